@@ -148,7 +148,8 @@ def run_shard(exe, args, start, count, env=None, timeout=600, progress=True):
                 last = int(pf.read().split()[0])
             except Exception:
                 last = cur
-            crashes.append((last, "timeout" if timed_out else _sig_name(rc), err[-6000:], " ".join(cmd)))
+            if rc != 99:  # 99 = the harness printed the violation itself (e.g. per-case watchdog) and wants a restart
+                crashes.append((last, "timeout" if timed_out else _sig_name(rc), err[-6000:], " ".join(cmd)))
             cur = max(last, cur) + 1
     return lines, crashes
 
